@@ -40,6 +40,7 @@ MARKER_PROPS = {
     "VF:owned.forms.earlier_read_changed": ["C02"],
     "VF:string.forms.": ["C20"],
     "VF:columns.": ["C12", "C01", "C02"],
+    "VF:columns.row.": ["C12", "C01", "C02", "C13"],
     "VF:columns.dense_indices": ["C12"],
     "VF:string.": ["C04", "C01", "C02"],
     "VF:string.valid_utf8": ["C04"],
@@ -49,7 +50,7 @@ MARKER_PROPS = {
     "VF:string.columns.len": ["C12", "C01", "C02"],
     "VF:string.slice.len": ["C01", "C02"],
     "VF:string.slice.into_owned": ["C14", "C01"],
-    "VF:columns.forms.": ["C20"],
+    "VF:columns.forms.": ["C20", "C14"],
     "VF:option.roundtrip": ["C01", "C02"],
     "VF:result.roundtrip": ["C01", "C02"],
     "VF:tuple.roundtrip": ["C01", "C02"],
@@ -78,6 +79,7 @@ MARKER_PROPS = {
     "VF:coded_life.clear": ["C08"],
     "VF:coded_life.reserve": ["C10"],
     "VF:huffman.forms.": ["C20"],
+    "VF:huffman.forms.next_generation": ["C20", "C10"],
     "VF:dictionary.": ["C07"],
     "VF:dictionary.read_differs_from_pushed": ["C07", "C01", "C04", "C10"],
     "VF:dictionary.covered_value_refused": ["C07", "C01", "C10"],
@@ -103,6 +105,7 @@ MARKER_PROPS = {
     "VF:intoowned.cip": ["C14", "C20", "C12"],
     "VF:intoowned.optslice": ["C14", "C20"],
     "VF:intoowned.cip.accessors": ["C13", "C12", "C01"],
+    "VF:intoowned.cip.after_clear": ["C12", "C08"],
     "VF:collapse.clone_from": ["C11", "C09", "C01"],
     "VF:collapse.slice_opt": ["C11", "C01"],
     "VF:wrapped.region_to_region_eq": ["C14", "C15"],
